@@ -90,14 +90,19 @@ FairSpec == Spec /\ WF_vars(CountWigm \/ CountScotland \/ CountMpls \/ CountCfer
 
 (* the count as a function: run a header to completion (bounded by fuel, which a finished count never exhausts) *)
 RECURSIVE RunFrom(_, _)
-RunFrom(st, fuel) == IF st.pc = "done" \/ fuel = 0 THEN st ELSE RunFrom(Step(st), fuel - 1)
-Run(h) == RunFrom(InitState(h), 400)
+RunFrom(st, fuel) == IF st.pc = "done" \/ fuel = 0 THEN st ELSE RunFrom(TLCEval(Step(st)), fuel - 1)
+Run(h) == RunFrom(InitState(h), 20000)
 
 (* ---------- properties ---------- *)
 Done == s.pc = "done"
 AllFails(T) == {f \in UNION {FailOf(p, T) : p \in CHECK} : f[2] \notin KNOWNCL}
 (* every property of Props.tla holds of every finished count *)
-PropsHold == Done => (AllFails(TraceOf(s)) = {} \/ (PrintT(<<"FAILS", AllFails(TraceOf(s)), s.h>>) /\ FALSE))
+PropsHold == Done => (AllFails(TraceOf(s)) = {} \/ (PrintT("FAILS " \o ToJson([fails |-> AllFails(TraceOf(s)), h |-> s.h])) /\ FALSE))
+(* DESIGN 4.5(ii): the known deviations of the code from the rule texts are outcome-neutral: *)
+(* the specification with every DEV arm disabled (TextSpec) elects the same candidates       *)
+DevNeutral == Done /\ s.devs # {} =>
+                (ElectedS(Run([s.h EXCEPT !.devs = {}])) = ElectedS(s)
+                 \/ (PrintT("DEVDIFF " \o ToJson([h |-> s.h, devs |-> s.devs])) /\ FALSE))
 (* C01 liveness: every count terminates *)
 Terminates == (s.pc # "setup") ~> Done
 (* the count never takes more steps than a generous structural bound (guards RunFrom's fuel) *)
